@@ -1,6 +1,7 @@
 (* C03 — UDP tunnels preserve datagram payloads, boundaries and reply addressing.
    Only statements here; proofs live in Proofs/.  Every theorem is followed by Print Assumptions. *)
-From FRP Require Import Model.Base64 Model.Udp Proofs.Base64Proofs Proofs.UdpProofs Proofs.UdpFwdProofs Proofs.RegistryCheck.
+From FRP Require Import Model.Base64 Model.Udp Model.UdpSched Proofs.Base64Proofs Proofs.UdpProofs Proofs.UdpFwdProofs
+  Proofs.UdpSchedProofs Proofs.RegistryCheck.
 Open Scope Z_scope.
 
 Definition today_registry := registry type_consts type_map.
@@ -102,15 +103,45 @@ Theorem C03_reply_accounting : forall c h (f : uview -> bool),
 Proof. exact (fun c h f => rev_accounting c f h). Qed.
 Print Assumptions C03_reply_accounting.
 
-(* the only reasons a datagram or a reply is ever lost for: a full 1024-slot queue
-   (select-default) or a dying / replaced work connection — provided the read buffer is small
-   enough for every frame to fit (uc_buf <= 7563), user addresses are of the usual size and
-   the OS can open sockets.  Bad base64, a nil address or an oversize frame never occur. *)
-Theorem C03_drop_only_when_full_or_replacing : forall c h,
+(* "Datagrams may be dropped only under overload or while the work connection is being
+   re-established; at light load they arrive."
+
+   REFUTED at lock granularity (Model/UdpSched.v: the Forwarder's readCh loop and its reader
+   goroutines as a schedule model).  Witness: user a sends "one", then "two"; the loop looks a's
+   socket up and releases the mutex; the socket's 30 s read deadline fires, its reader locks,
+   deletes the map entry, unlocks and closes; the loop's Write hits the closed socket: "two" is
+   lost with empty queues and no replacement.  Replayed on the real udp.Forwarder by driver part
+   `race` (gate udp.forwarder.before_write); failure key udp.Forwarder:write-after-idle-close;
+   proposed patch proposed-fixes/C03_forwarder_idle_boundary.diff *)
+Theorem C03_drop_only_when_full_or_replacing_refuted :
+  exists (q : list upacket) (sched : list gtid) s ra d,
+    In (GWriteErr s ra d) (snd (grun {| uc_buf := 1500 |} (ginit q) sched)).
+Proof.
+  exists race_queue, race_sched, 0%N, (Some race_user), (bs "two").
+  rewrite (proj1 race_witness). cbn. auto.
+Qed.
+Print Assumptions C03_drop_only_when_full_or_replacing_refuted.
+
+(* PARTIAL (1), lock granularity: on every schedule on which the loop's lookup..Write section never
+   overlaps the exit section (deadline error .. Close) of the reader of the same socket — exactly the
+   class the witness belongs to — the Forwarder loses no datagram, for any queue of packets, any
+   number of users, deadlines and replies *)
+Theorem C03_forwarder_no_loss_without_overlap_partial : forall c q sched,
+  gsafe c (ginit q) sched = true ->
+  forallb (fun o => negb (gout_lost o)) (snd (grun c (ginit q) sched)) = true.
+Proof. intros c q sched. apply no_loss_without_overlap. apply closed_done_init. Qed.
+Print Assumptions C03_forwarder_no_loss_without_overlap_partial.
+
+(* PARTIAL (2), whole tunnel, where those two sections are single steps (ECliPump, ESockIdle), i.e. for
+   the interleavings without that overlap: the only reasons a datagram or a reply is ever lost for
+   are a full 1024-slot queue (select-default) or a dying / replaced work connection — provided the
+   read buffer is small enough for every frame to fit (uc_buf <= 7563), user addresses are of the
+   usual size and the OS can open sockets.  Bad base64, a nil address or an oversize frame never occur. *)
+Theorem C03_drop_only_when_full_or_replacing_partial : forall c h,
   ucfg_ok c -> forallb uev_ok h = true ->
   forallb uout_drop_ok (snd (urun c uinit h)) = true.
 Proof. exact drops_only_allowed. Qed.
-Print Assumptions C03_drop_only_when_full_or_replacing.
+Print Assumptions C03_drop_only_when_full_or_replacing_partial.
 
 (* at light load (nothing dropped, pipeline drained) exactly the datagrams sent have arrived,
    and exactly the replies read have reached their users *)
@@ -163,12 +194,35 @@ Proof.
 Qed.
 Print Assumptions C03_reply_to_originating_user_only.
 
-(* the map key identifies the user: distinct IPv4 source addresses (no zone, port in range) print
-   differently, so two users behind one IP never share a key *)
+(* the map key identifies the user: two well-formed addresses (IP text as net.IP prints it — IPv4,
+   IPv6, v4-in-v6 —, any zone without ']', port 0..65535) that print the same are the same, so two
+   users never share a map key; IPv4 special case kept for reference *)
+Theorem C03_printed_address_identifies_user : forall a b,
+  uaddr_wf a -> uaddr_wf b -> uaddr_string (Some a) = uaddr_string (Some b) -> a = b.
+Proof. exact uaddr_string_inj. Qed.
+Print Assumptions C03_printed_address_identifies_user.
+
 Theorem C03_printed_address_identifies_v4_user : forall a b,
   uaddr_v4 a -> uaddr_v4 b -> uaddr_string (Some a) = uaddr_string (Some b) -> a = b.
 Proof. exact uaddr_string_inj_v4. Qed.
 Print Assumptions C03_printed_address_identifies_v4_user.
+
+(* order across replacements, precisely: the sequence handed to the backend is a subsequence of the
+   sequence sent for EVERY history in which each replacement happens while nothing is buffered in the
+   readCh of the Forwarder being replaced ... *)
+Theorem C03_order_preserved_when_replaced_drained : forall c h,
+  replaced_when_drained c h ->
+  usubseq (ubackend (snd (urun c uinit h))) (usent c h).
+Proof. exact order_preserved_when_drained. Qed.
+Print Assumptions C03_order_preserved_when_replaced_drained.
+
+(* ... and without that hypothesis it is refuted: a datagram left in the old Forwarder's readCh is
+   overtaken by a later one of the same user that travels over the new connection (the multiset
+   theorems above still hold; the property text does not promise order) *)
+Theorem C03_order_across_replacement_refuted :
+  exists c h, ~ usubseq (ubackend (snd (urun c uinit h))) (usent c h).
+Proof. exists {| uc_buf := 1500 |}, reorder_history. exact reorder_not_subseq. Qed.
+Print Assumptions C03_order_across_replacement_refuted.
 
 (* after the reader goroutine of a socket has ended (idle timeout, or its Forwarder was replaced)
    the socket is never created again, never written to and no reply is ever read from it,
